@@ -143,7 +143,7 @@ func TestCheck(t *testing.T) {
 	rec = mon.Open("C13")
 	defer rec.Close()
 	rec.Note("rule", "a case is one history of 2-8 goroutines x 1-3 keys driven in lock-step against one lock primitive (fifo.Mutex, fifo.Map, cmap.Mutex, lock.Context, lock.OuterCancel), with seeded parking of a caller at the verif hook points between the map look-up and the mutex operation; cmap additionally runs the two directed delete-and-release histories. An occupancy monitor shadows every critical section; FIFO grants are compared with arrival order; fifo.Map's entry count is read at idle points; cancellation and OuterCancel rules are judged from the recorded grants, cancellations and causes in virtual time. Non-trivial = at least one acquisition had to wait; distinct = distinct step list.")
-	rec.Note("require", []string{"fifo.order_checked", "fifomap.idle_len_checked", "fifomap.park.map.lock.counted", "fifomap.park.map.unlock.counted", "cmap.park.lock.lookedup", "cmap.park.rlock.lookedup", "cmap.delete_unlock_safe", "cmap.directed.waiter_confirmed", "context.cancelled_while_waiting", "context.error_holds_nothing", "outer.writer_cancelled_readers_at_grace", "outer.reader_released_before_grace", "outer.reader_blocked_by_writer", "outer.rlock_error_holds_nothing_checked", "outer.free_lock_granted_at_once", "waits", "stress.acquisitions"})
+	rec.Note("require", []string{"fifo.order_checked", "fifomap.idle_len_checked", "fifomap.park.map.lock.counted", "fifomap.park.map.unlock.counted", "cmap.park.lock.lookedup", "cmap.park.rlock.lookedup", "cmap.delete_unlock_safe", "cmap.directed.waiter_confirmed", "context.cancelled_while_waiting", "context.error_holds_nothing", "outer.writer_cancelled_readers_at_grace", "outer.reader_released_before_grace", "outer.reader_blocked_by_writer", "outer.rlock_error_holds_nothing_checked", "outer.free_lock_granted_at_once", "outer.grace_kept_for_holder_whose_parent_ended", "waits", "stress.acquisitions"})
 	ps := plans()
 	rec.Planned(len(ps))
 	for idx, pl := range ps {
@@ -906,6 +906,29 @@ func outerCancel(w *world, rng *mon.RNG) bool {
 			}
 		}()
 	}
+	// holdLive (mu held): the reader's hold still counts inside the lock - it has not called its release
+	// function and no writer has been granted since (a writer is granted only once every earlier hold is gone)
+	holdLive := func(r *reader) bool {
+		if r.released {
+			return false
+		}
+		for _, wr := range writers {
+			if wr.grantSeq > r.grantSeq {
+				return false
+			}
+		}
+		return true
+	}
+	// holdGone (mu held): an earlier writer was granted after r was admitted, so r's hold was already taken away
+	holdGone := func(r *reader, me *writer) bool {
+		for _, wr := range writers {
+			if wr != me && wr.grantSeq > r.grantSeq {
+				return true
+			}
+		}
+		return false
+	}
+	early := ""
 	pendingReaders := 0
 	type doomedWait struct {
 		id  int
@@ -938,7 +961,26 @@ func outerCancel(w *world, rng *mon.RNG) bool {
 	}
 	nsteps := rng.Range(4, 18)
 	for s := 0; s < nsteps && !w.viol; s++ {
-		switch rng.Intn(6) {
+		switch rng.Intn(7) {
+		case 6: // the parent context of a reader that is inside ends; the reader keeps its hold until it releases
+			mu.Lock()
+			var cand []*reader
+			for _, r := range readers {
+				if !r.released && r.mode == "prompt" && r.rctx.Err() == nil {
+					cand = append(cand, r)
+				}
+			}
+			var r *reader
+			if len(cand) > 0 {
+				r = cand[rng.Intn(len(cand))]
+				r.doomed = true
+			}
+			mu.Unlock()
+			if r != nil {
+				w.step(fmt.Sprintf("reader%d parent context ends while it holds the lock", r.id))
+				rec.Count("outer.holder_parent_cancelled", 1)
+				r.parent()
+			}
 		case 0, 1: // new reader
 			nextID++
 			pctx, pcancel := context.WithCancel(context.Background())
@@ -1073,7 +1115,7 @@ func outerCancel(w *world, rng *mon.RNG) bool {
 				}
 			}
 			for _, r := range readers {
-				if !r.released && r.rctx.Err() == nil {
+				if holdLive(r) {
 					free = false
 				}
 			}
@@ -1086,6 +1128,18 @@ func outerCancel(w *world, rng *mon.RNG) bool {
 				mu.Lock()
 				seq++
 				wr.unlock, wr.granted, wr.grantSeq, wr.in = u, time.Now(), seq, true
+				// "not before the grace period": a reader admitted earlier that has not called its release function
+				// (whether or not its own parent context has ended meanwhile) keeps the writer out for a full grace period
+				for _, r := range readers {
+					if !r.released && !holdGone(r, wr) && time.Now().Before(wr.arrived.Add(grace)) {
+						early = fmt.Sprintf("writer%d (arrived %s) was granted at %s, before the grace period %v had passed, while reader%d had not released (its context: %v)", wr.id, wr.arrived.Format("05.000"), time.Now().Format("05.000"), grace, r.id, context.Cause(r.rctx))
+					}
+				}
+				for _, r := range readers {
+					if !r.released && !holdGone(r, wr) && r.doomed && early == "" {
+						rec.Count("outer.grace_kept_for_holder_whose_parent_ended", 1)
+					}
+				}
 				// readers that have been told to stop no longer count
 				for _, r := range readers {
 					if r.rctx.Err() != nil {
@@ -1126,6 +1180,14 @@ func outerCancel(w *world, rng *mon.RNG) bool {
 		if !checkDoomed() {
 			return true
 		}
+		mu.Lock()
+		if early != "" {
+			msg := early
+			mu.Unlock()
+			w.violation("OuterCancel/writer-granted-before-grace", msg)
+			return true
+		}
+		mu.Unlock()
 		// judge reader cancellations
 		mu.Lock()
 		for _, r := range readers {
